@@ -647,8 +647,10 @@ theorem fileHeaders_idem (s : MsgState) (a : Bool) (f : FileM) (hs : HSorted f.h
 
 /-- the boundary in effect after startMP -/
 def bnd (given fresh : Bytes) : Bytes := if given.isEmpty then fresh else if validBoundary given then given else fresh
-/-- givenBoundary as a function of "this layer is the outermost one" -/
-def gbv (user : Bytes) (top : Bool) (cached : Bytes) : Bytes := if !user.isEmpty && top then user else cached
+/-- givenBoundary as a function of "this layer is the outermost one" (`top`) and "the outermost layer of
+    this render has taken the user's boundary" (`ub`) -/
+def gbv (user : Bytes) (top ub : Bool) (cached : Bytes) : Bytes :=
+  if !user.isEmpty && top then user else if ub && cached == user then [] else cached
 
 def OkB (x : Bytes) : Prop := x = [] ∨ validBoundary x = true
 
@@ -660,8 +662,12 @@ theorem valid_ne_nil (x : Bytes) (h : validBoundary x = true) : x.isEmpty = fals
   | nil => simp [validBoundary] at h
   | cons a as => rfl
 
-theorem bnd_fix (u c f1 f2 : Bytes) (top : Bool) (hu : OkB u) (hc : OkB c) (hf : validBoundary f1 = true) :
-    bnd (gbv u top (bnd (gbv u top c) f1)) f2 = bnd (gbv u top c) f1 := by
+/-- what the first render caches is what the second render uses: the user's boundary for the outermost
+    layer, a valid cached boundary otherwise - and a freshly drawn one where the cache was empty, invalid
+    or (for a layer that is nested now) the user's boundary, provided the fresh one is not the user's -/
+theorem bnd_fix (u c f1 f2 : Bytes) (top ub : Bool) (hu : OkB u) (hc : OkB c) (hf : validBoundary f1 = true)
+    (hne : ub = true → f1 ≠ u) :
+    bnd (gbv u top ub (bnd (gbv u top ub c) f1)) f2 = bnd (gbv u top ub c) f1 := by
   have hfe := valid_ne_nil f1 hf
   unfold gbv
   by_cases hut : (!u.isEmpty && top) = true
@@ -672,11 +678,59 @@ theorem bnd_fix (u c f1 f2 : Bytes) (top : Bool) (hu : OkB u) (hc : OkB c) (hf :
     · rw [hu] at hune; simp at hune
     · simp [bnd, hune, hu]
   · simp only [hut, Bool.false_eq_true, if_false]
-    rcases hc with hc | hc
-    · subst hc
+    by_cases hdrop : (ub && c == u) = true
+    · -- the cached boundary is the user's and the outermost layer has it: a fresh one is drawn and kept
+      simp only [hdrop, if_true]
+      have hub : ub = true := by simp only [Bool.and_eq_true] at hdrop; exact hdrop.1
+      have h1 : bnd [] f1 = f1 := by simp [bnd]
+      rw [h1]
+      have h2 : (ub && f1 == u) = false := by
+        have := hne hub
+        simp [hub, this]
+      simp only [h2, Bool.false_eq_true, if_false]
       simp [bnd, hfe, hf]
-    · have hce := valid_ne_nil c hc
-      simp [bnd, hce, hc]
+    · simp only [hdrop, Bool.false_eq_true, if_false]
+      have hkeep : ∀ x : Bytes, (x = c ∨ x = f1) → (ub && x == u) = false := by
+        intro x hx
+        cases hub : ub with
+        | false => simp
+        | true =>
+          rcases hx with hx | hx
+          · subst hx
+            have : (x == u) = false := by
+              cases hxu : (x == u) with
+              | false => rfl
+              | true => simp [hub, hxu] at hdrop
+            simp [this]
+          · subst hx
+            have := hne hub
+            simp [this]
+      rcases hc with hc | hc
+      · subst hc
+        have h1 : bnd [] f1 = f1 := by simp [bnd]
+        rw [h1, hkeep f1 (Or.inr rfl)]
+        simp [bnd, hfe, hf]
+      · have hce := valid_ne_nil c hc
+        have h1 : bnd c f1 = c := by simp [bnd, hce, hc]
+        rw [h1, hkeep c (Or.inl rfl)]
+        simp [bnd, hce, hc]
+
+/-- a layer below an outermost layer that has taken the user's boundary never ends up with that boundary -/
+theorem nested_bnd_ne_user (u c f : Bytes) (hf : f ≠ u) : bnd (gbv u false true c) f ≠ u := by
+  unfold gbv
+  simp only [Bool.and_false, Bool.false_eq_true, if_false, Bool.true_and]
+  by_cases hcu : (c == u) = true
+  · simp only [hcu, if_true]
+    simp [bnd, hf]
+  · simp only [hcu, Bool.false_eq_true, if_false]
+    have hne : c ≠ u := by
+      intro h; subst h; simp at hcu
+    unfold bnd
+    split
+    · exact hf
+    · split
+      · exact hne
+      · exact hf
 
 theorem bnd_ok (g f : Bytes) (hf : validBoundary f = true) : OkB (bnd g f) := by
   unfold bnd
@@ -696,30 +750,54 @@ theorem startMP_depth (p : PW) (mt given fresh : Bytes) : (p.startMP mt given fr
     have := (startMP_nested p mt given fresh b l rest hs).2
     simp [PW.depth, this, hs]
 
+theorem markUser_userBnd (s : MsgState) (p : PW) :
+    (markUser s p).userBnd = (p.userBnd || (!s.boundary.isEmpty && p.depth == 0)) := by
+  unfold markUser
+  split
+  · rename_i h; simp [h]
+  · rename_i h
+    have : (!s.boundary.isEmpty && p.depth == 0) = false := by simpa using h
+    simp [this]
+
+theorem startMP_userBnd (p : PW) (mt given fresh : Bytes) : (p.startMP mt given fresh).1.userBnd = p.userBnd := by
+  unfold PW.startMP PW.newPart
+  simp only []
+  split <;> (try split) <;> rfl
+
 theorem openLayer_snd (s : MsgState) (p : PW) (mt cached fresh : Bytes) :
-    (openLayer s p mt cached fresh).2 = bnd (gbv s.boundary (p.depth == 0) cached) fresh ∧
-    (openLayer s p mt cached fresh).1.depth = p.depth + 1 := by
+    (openLayer s p mt cached fresh).2 = bnd (gbv s.boundary (p.depth == 0) p.userBnd cached) fresh ∧
+    (openLayer s p mt cached fresh).1.depth = p.depth + 1 ∧
+    (openLayer s p mt cached fresh).1.userBnd = (p.userBnd || (!s.boundary.isEmpty && p.depth == 0)) := by
   unfold openLayer
   simp only []
-  refine ⟨by rw [startMP_snd]; rfl, ?_⟩
-  split
-  · show (PW.str _ _).depth = _
-    unfold PW.str PW.depth
-    simp only []
-    exact startMP_depth p mt _ fresh
-  · exact startMP_depth p mt _ fresh
+  refine ⟨by rw [startMP_snd]; rfl, ?_, ?_⟩
+  · split
+    · show (PW.str _ _).depth = _
+      unfold PW.str PW.depth
+      simp only []
+      have := startMP_depth (markUser s p) mt (givenBoundary s p cached) fresh
+      simpa [PW.depth] using this
+    · have := startMP_depth (markUser s p) mt (givenBoundary s p cached) fresh
+      simpa using this
+  · split
+    · show (PW.str _ _).userBnd = _
+      unfold PW.str
+      simp only []
+      rw [startMP_userBnd, markUser_userBnd]
+    · rw [startMP_userBnd, markUser_userBnd]
 
 /-- the boundary cache after the layer-opening stage, in closed form -/
-theorem stageOpen_boundaries (s : MsgState) (e : Entropy) (p : PW) (hp : p.depth = 0) :
-    (stageOpen s e false p).2.bMixed = (if hasMixed s then bnd (gbv s.boundary true s.bMixed) e.bMixed else s.bMixed) ∧
+theorem stageOpen_boundaries (s : MsgState) (e : Entropy) (p : PW) (hp : p.depth = 0) (hu : p.userBnd = false) :
+    (stageOpen s e false p).2.bMixed = (if hasMixed s then bnd (gbv s.boundary true false s.bMixed) e.bMixed else s.bMixed) ∧
     (stageOpen s e false p).2.bRelated =
-      (if hasRelated s then bnd (gbv s.boundary (!hasMixed s) s.bRelated) e.bRelated else s.bRelated) ∧
+      (if hasRelated s then bnd (gbv s.boundary (!hasMixed s) (hasMixed s && !s.boundary.isEmpty) s.bRelated) e.bRelated else s.bRelated) ∧
     (stageOpen s e false p).2.bAlt =
-      (if hasAlt s then bnd (gbv s.boundary (!hasMixed s && !hasRelated s) s.bAlt) e.bAlt else s.bAlt) := by
+      (if hasAlt s then bnd (gbv s.boundary (!hasMixed s && !hasRelated s)
+        ((hasMixed s || hasRelated s) && !s.boundary.isEmpty) s.bAlt) e.bAlt else s.bAlt) := by
   unfold stageOpen
   simp only [Bool.false_eq_true, if_false]
   cases hM : hasMixed s <;> cases hR : hasRelated s <;> cases hA : hasAlt s <;>
-    simp [openLayer_snd, hp]
+    simp [openLayer_snd, hp, hu]
 
 /-! ### the state after a render is a fixpoint of rendering -/
 
@@ -738,6 +816,27 @@ theorem hasX_congr (a b : MsgState) (hp : a.parts = b.parts) (he : a.embeds.leng
   unfold hasMixed hasRelated hasAlt countBodyParts hasBodyParts
   rw [hp, he, ha]; exact ⟨rfl, rfl, rfl⟩
 
+theorem header_userBnd (p : PW) (c : Bool) (k : Bytes) (vs : List Bytes) : (p.header c k vs).userBnd = p.userBnd := by
+  unfold PW.header; simp only []; split <;> rfl
+
+theorem foldl_userBnd {α} (f : PW → α → PW) (l : List α) (p : PW) (hf : ∀ (p : PW) (x : α), (f p x).userBnd = p.userBnd) :
+    (l.foldl f p).userBnd = p.userBnd := by
+  induction l generalizing p with
+  | nil => rfl
+  | cons x xs ih => simp only [List.foldl_cons]; rw [ih, hf]
+
+theorem stageHeaders_userBnd (s : MsgState) (p : PW) : (stageHeaders s p).userBnd = p.userBnd := by
+  unfold stageHeaders
+  simp only []
+  rw [foldl_userBnd _ _ _ (by
+    intro p kn
+    split
+    · exact header_userBnd _ _ _ _
+    · rfl)]
+  split
+  · rw [header_userBnd, foldl_userBnd _ _ _ (by intro p kv; rfl), foldl_userBnd _ _ _ (by intro p kv; exact header_userBnd _ _ _ _)]
+  · rw [foldl_userBnd _ _ _ (by intro p kv; rfl), foldl_userBnd _ _ _ (by intro p kv; exact header_userBnd _ _ _ _)]
+
 /-- what a render leaves behind, field by field -/
 theorem writeMsg_state (s : MsgState) (e : Entropy) :
     (writeMsg s e false).2.gen = defaultGen s e ∧
@@ -746,14 +845,16 @@ theorem writeMsg_state (s : MsgState) (e : Entropy) :
     (writeMsg s e false).2.mimever = s.mimever ∧ (writeMsg s e false).2.parts = s.parts ∧
     (writeMsg s e false).2.embeds = s.embeds.map (fileHeaders s false) ∧
     (writeMsg s e false).2.attachments = s.attachments.map (fileHeaders s true) ∧
-    (writeMsg s e false).2.bMixed = (if hasMixed s then bnd (gbv s.boundary true s.bMixed) e.bMixed else s.bMixed) ∧
+    (writeMsg s e false).2.bMixed = (if hasMixed s then bnd (gbv s.boundary true false s.bMixed) e.bMixed else s.bMixed) ∧
     (writeMsg s e false).2.bRelated =
-      (if hasRelated s then bnd (gbv s.boundary (!hasMixed s) s.bRelated) e.bRelated else s.bRelated) ∧
+      (if hasRelated s then bnd (gbv s.boundary (!hasMixed s) (hasMixed s && !s.boundary.isEmpty) s.bRelated) e.bRelated else s.bRelated) ∧
     (writeMsg s e false).2.bAlt =
-      (if hasAlt s then bnd (gbv s.boundary (!hasMixed s && !hasRelated s) s.bAlt) e.bAlt else s.bAlt) := by
+      (if hasAlt s then bnd (gbv s.boundary (!hasMixed s && !hasRelated s)
+        ((hasMixed s || hasRelated s) && !s.boundary.isEmpty) s.bAlt) e.bAlt else s.bAlt) := by
   have hd : (stageHeaders (defaultHeaders s e) {}).depth = 0 := by
     unfold PW.depth; rw [stageHeaders_stack]; rfl
-  obtain ⟨b1, b2, b3⟩ := stageOpen_boundaries (defaultHeaders s e) e (stageHeaders (defaultHeaders s e) {}) hd
+  have hub : (stageHeaders (defaultHeaders s e) {}).userBnd = false := stageHeaders_userBnd _ _
+  obtain ⟨b1, b2, b3⟩ := stageOpen_boundaries (defaultHeaders s e) e (stageHeaders (defaultHeaders s e) {}) hd hub
   refine ⟨rfl, rfl, rfl, rfl, rfl, rfl, rfl, ?_, ?_, b1, b2, b3⟩
   · show List.map _ _ = _
     apply List.map_congr_left
@@ -775,6 +876,9 @@ structure RenderOK (s : MsgState) (e : Entropy) : Prop where
   fM : validBoundary e.bMixed = true
   fR : validBoundary e.bRelated = true
   fA : validBoundary e.bAlt = true
+  /-- the boundaries drawn for nested layers are not the user's boundary (they are random) -/
+  nR : e.bRelated ≠ s.boundary
+  nA : e.bAlt ≠ s.boundary
   hdrE : ∀ f ∈ s.embeds, HSorted f.header
   hdrA : ∀ f ∈ s.attachments, HSorted f.header
 
@@ -797,15 +901,15 @@ theorem render_state_fixpoint (s : MsgState) (e1 e2 : Entropy) (h : RenderOK s e
     exact defaultGen_idem s e1 e2
   · rw [bM2, xM, u1, bM1]
     split
-    · exact bnd_fix _ _ _ _ true h.user h.cM h.fM
+    · exact bnd_fix _ _ _ _ true false h.user h.cM h.fM (by intro h; cases h)
     · rfl
   · rw [bR2, xR, xM, u1, bR1]
     split
-    · exact bnd_fix _ _ _ _ _ h.user h.cR h.fR
+    · exact bnd_fix _ _ _ _ _ _ h.user h.cR h.fR (fun _ => h.nR)
     · rfl
   · rw [bA2, xA, xM, xR, u1, bA1]
     split
-    · exact bnd_fix _ _ _ _ _ h.user h.cA h.fA
+    · exact bnd_fix _ _ _ _ _ _ h.user h.cA h.fA (fun _ => h.nA)
     · rfl
   · rw [em2, em1, List.map_map]
     apply List.map_congr_left
